@@ -134,6 +134,11 @@ def run(tier, replay_path=None):
     n, agree, viol = vmcheck.validate(ck, sl[:60 if tier == "quick" else 400], "CalcVM: real instruction traces of wide-frame programs followed on frame objects", maxsteps=200000)
     for desc, case, kind in viol:
         ck.violation(desc, case)
+    # the frame slot every name of these programs is compiled to (CalcScope.tla against the real rewriter)
+    import scopecheck
+    scoped = [s for fam in fams for s in fam[1] if "nested-frames" in s.get("meta", {}) or s.get("meta", {}).get("width", 999) <= 5]
+    for desc, case in scopecheck.validate(ck, scoped, "CalcScope: storage class and frame slot of every name in nested function literals"):
+        ck.violation(desc, case)
     ck.cov["rule"] = ("Memory.tla histories: all legal operation sequences up to the bound per family (stack+frames+globals / frames+closures / frames+closures+clone+recycle / all), widths {1,130} "
                       "and burst 129 around the 128-slot allocation unit, plus seeded simulation of 24-operation histories over widths {1,2,127,128,130} and bursts {3,127,129,300}; "
                       "non-trivial = a read or pop after a growth, clone or recycle event with at least one frame pushed.  Programs: frame widths 1..260 x 0-3 suspended generators x "
